@@ -72,7 +72,7 @@ fn check_residue(r: &mut Report, s: &Snapshot, case: &Value) {
 }
 
 /// S1: mixed overlapping API calls under loss, then quiet.
-fn workload_scenario(r: &mut Report, seed: u64) {
+pub fn workload_scenario(r: &mut Report, seed: u64) {
     r.eval();
     let mut rng = Rng::new(seed);
     let w = World::with_cfg(seed, NetCfg { lat_min: 2 * MS, lat_max: 150 * MS, random_ties: true }, TraceLevel::Off);
@@ -213,7 +213,7 @@ fn cache_scenario(r: &mut Report, seed: u64, lookups: usize, refresh_cycles: usi
 
 /// S4: stores with capacities 1..3 under write churn; sizes from the snapshot hook after every write,
 /// survivors judged against an LRU model through probe reads.
-fn store_scenario(r: &mut Report, seed: u64) {
+pub fn store_scenario(r: &mut Report, seed: u64) {
     r.eval();
     let mut rng = Rng::new(seed);
     let caps = (1 + rng.usize(3), 1 + rng.usize(3), 1 + rng.usize(3), 1 + rng.usize(3));
